@@ -1102,11 +1102,27 @@ pub fn run_once(cfg: &ConcCfg, shard: &mut Shard, keep_sample: bool) -> RunOutco
     }
     if stuck {
         // cannot join; report what we have (the stuck threads' logs are lost)
+        match hooks::asleep_and_nobody_moves(0, 40) {
+            Some(who) => {
+                // not a wall-clock verdict: nobody is running, nobody can be woken, the supervisor only waits
+                violation(
+                    "C08",
+                    "blocked-forever",
+                    "blocked-forever:conc:asleep-and-no-queue-operation-in-progress".to_string(),
+                    format!(
+                        "25 s after the scenario started, over 40 looks 50 ms apart no thread passed a hook site (no queue operation, in particular no notify, is in progress) while a consumer sat asleep in the kernel inside BlockingWait::wait without gaining CPU time: nothing is left that could wake it [{}] ({})",
+                        who,
+                        cfg.describe()
+                    ),
+                );
+            }
+            None => shard.inconclusive.push(format!(
+                "a thread did not finish within the wall-clock watchdog (25 s), run seed {}: {}",
+                cfg.seed,
+                cfg.describe()
+            )),
+        }
         hooks::thread_end();
-        shard.inconclusive.push(format!(
-            "a thread did not finish within the wall-clock watchdog (25 s): {}",
-            cfg.describe()
-        ));
         return RunOutcome {
             sig: 0,
             nontrivial: false,
@@ -1729,6 +1745,25 @@ pub fn run_many(p: &ConcParams, shard: &mut Shard) {
         if out.stuck {
             // the process still has stuck threads: stop this shard here
             shard.stat("stuck_runs", 1);
+            let mut vs = payload::take_violations();
+            if !vs.is_empty() {
+                let also = fam.also();
+                if !also.is_empty() {
+                    for v in vs.iter_mut() {
+                        if !v.prop.contains(&also[1..]) {
+                            v.prop = payload::intern(format!("{}{}", v.prop, also));
+                        }
+                    }
+                }
+                let replay = J::obj()
+                    .set("engine", J::s("conc"))
+                    .set("cfg", J::s(cfg.describe()))
+                    .set("family", J::s(fam.name()))
+                    .set("run_seed", J::UInt(cfg.seed))
+                    .set("shard_seed", J::UInt(p.seed))
+                    .set("run_index", J::UInt(i));
+                shard.add_violations(vs, &replay);
+            }
             break;
         }
         shard.evaluations += 1;
